@@ -14,10 +14,10 @@ def main():
         and 'Driver' not in problems and 'I18n.Model' not in problems and 'I18n.Spec' not in problems
 
     boost = 3 if chk.broken else 1
-    n_single = G.n_single() if chk.thorough else 6000 * boost
-    n_multi = 120000 if chk.thorough else 14000 * boost
-    n_bad = 80000 if chk.thorough else 8000 * boost
-    short_len = 4 if (chk.thorough or chk.broken) else 3
+    n_single = G.n_single() if chk.thorough else 16000 * boost
+    n_multi = 120000 if chk.thorough else 36000 * boost
+    n_bad = 80000 if chk.thorough else 20000 * boost
+    short_len = 5 if chk.thorough else 4
 
     fam = {'corpus': C.corpus()}
     fam.update(C.stream_inputs(chk, n_single, n_multi, n_bad, short_len))
@@ -39,7 +39,7 @@ def main():
         chk.broken.append({'kind': 'correspondence', 'stream': 'pyfmt-*', 'problem': 'driver could not be rebuilt from the regenerated model'})
 
     # falsifier: the property itself on the real code with the running interpreter as oracle; disagreeing inputs first
-    budget = (400000 if chk.thorough else 40000) * (3 if chk.broken else 1)
+    budget = (400000 if chk.thorough else 70000) * (3 if chk.broken else 1)
     order = list(disagreeing) + [s for s, _ in oracle_dis] + fam['corpus'] + fam['boundary'] + fam['context'] + fam['short']
     rng = chk.rng
     pools = [fam['multi'], fam['malformed'], fam['single']]
